@@ -302,6 +302,48 @@ theorem reader_error_sticky (F : File) (hwf : WF F) (x : FReader) (pos : Nat) (h
   · exact (fstep_ok hwf hi (.read n) trivial).1.1 e he
   · exact (fstep_ok hwf hi .readByte trivial).1.1 e he
 
+/-- **Close does not swallow the error.**  After any operation of any history that returned an error other than
+`io.EOF` — a Read/ReadByte that met a fault or found the error latched, or a Seek that failed — `Close` returns
+that error; and `Close` returns nil exactly when nothing or `io.EOF` is latched. -/
+theorem reader_close_reports_error (F : File) (hwf : WF F) (x : FReader) (pos : Nat) (hi : FInv F x pos)
+    (op : Spec.Flat.Op) (hv : OpValid (layoutOf F) op) (e : Err) (he : (x.step op).2.err = some e)
+    (hne : e ≠ .eof) :
+    (x.step op).1.close = some e := by
+  have hlatch : (x.step op).1.r.err = some e := by
+    have h := (fstep_ok hwf hi op hv).1
+    have rd : ∀ want, ((∀ e0, x.r.err = some e0 → (x.step op).2.bytes = [] ∧ (x.step op).2.err = some e0 ∧
+          (x.step op).1 = x) ∧
+        (x.r.err = none → ReadRes F x (x.step op).1 pos want (x.step op).2.bytes (x.step op).2.err)) →
+        (x.step op).1.r.err = some e := by
+      intro want h
+      cases hx : x.r.err with
+      | some e0 =>
+        have ⟨_, h2, h3⟩ := h.1 e0 hx
+        rw [h3, hx, ← h2, he]
+      | none =>
+        have hr := h.2 hx
+        cases hx' : (x.step op).1.r.err with
+        | some e' => have := (hr.latched e' hx').1; rw [he] at this; rw [Option.some.inj this]
+        | none =>
+          rcases (hr.alive hx').2 with h0 | ⟨h0, _⟩
+          · rw [he] at h0; cases h0
+          · rw [he] at h0; exact absurd (Option.some.inj h0) hne
+    cases op with
+    | read n => exact rd n h
+    | readByte => exact rd 1 h
+    | seek o => exact (h.2.2.1 e he).1
+    | setBlocked b => have := h.2.1; rw [he] at this; cases this
+  unfold FReader.close
+  rw [hlatch]
+  cases e <;> first | rfl | exact absurd rfl hne
+
+theorem reader_close_nil_iff (x : FReader) :
+    x.close = none ↔ (x.r.err = none ∨ x.r.err = some .eof) := by
+  unfold FReader.close
+  cases h : x.r.err with
+  | none => simp
+  | some e => cases e <;> simp
+
 /-- The faulty model is the reader model of C02 with the loads going through the oracle: with an empty oracle
 `Read` and `Seek` are literally those of `Hts.Model.Bgzf.Reader` (whose refinement of the flat specification is
 `Hts.Props.C02.read_refines_flat`). -/
